@@ -138,10 +138,8 @@ class C10(Prop):
                 return f
             size, members, cid = t[1]
             by_label.setdefault((size, tuple(members), cid), []).append(tuple(t[0]))
-            vn = case.get("vnames")
-            names = [f"n{v}" if vn == "prefix" else str(v) if vn == "digit" else v for v in members]
-            if t[2] != f"{size}-{names}-{cid}":
-                f.append("label-format")
+            # (the exact spelling of a label - Python's repr of the member list in this code - is compared with the model; the
+            #  property asks for the form size-members-id, which is what reading it back above has established)
         ids = [k[2] for k in by_label]
         if len(set(ids)) != len(ids):
             f.append("ids-not-unique: two cliques share an id")
